@@ -24,6 +24,11 @@ impl<K, V, S> Cache<K, V, S> {
         self.base.verif_channel_lens()
     }
 
+    /// Capacity of the bounded write operation queue.
+    pub fn verif_write_queue_capacity(&self) -> usize {
+        self.base.verif_write_queue_capacity()
+    }
+
     pub fn verif_is_sync_running(&self) -> bool {
         self.base.verif_is_sync_running()
     }
